@@ -449,6 +449,16 @@ def stepLine (s : St) (toks : List String) : St × List String :=
           match unhex d with
           | some d => editOp s h (.extend d)
           | none => (s, ["bad-op"])
+        else if kind == "exthuge" then
+          -- `extend_from_slice` with a slice of `n ≥ 2^32` bytes: more than any capacity
+          -- (`bs ≤ 4096`), so it takes the same refusing branch as a slice of `bs + 1`
+          -- bytes (`extend_refused_of_long` in Props/C15.lean: the outcome depends on the
+          -- length only)
+          match parseUsize d with
+          | some n =>
+            if 4294967296 ≤ n ∧ n ≤ 17179869184 then editOp s h (.extend (List.replicate (s.bs + 1) 0))
+            else (s, ["bad-op"])
+          | none => (s, ["bad-op"])
         else if kind == "spare" then
           match unhex d with
           | some d => editOp s h (.spareWrite d)
